@@ -304,7 +304,7 @@ class Check:
     def mismatch(self, op, line, impl, model, info, proven):
         rec = {"property": self.prop, "op": op, "request": line[:100000], "impl": impl[:100000],
                "model": model[:100000], "info": info, "seed": self.seed}
-        fid = self.classify(rec)
+        fid = self.classify(rec, mismatch=True)
         if fid:
             self.known_hit[fid] = self.known_hit.get(fid, 0) + 1
             return
@@ -325,8 +325,12 @@ class Check:
             return
         self.violations.append((what, rec))
 
-    def classify(self, rec):
+    def classify(self, rec, mismatch=False):
         for f in self.known:
+            # a finding recorded as "the model follows the defective code" can only show as a failed property
+            # predicate, never as a disagreement between implementation and model
+            if mismatch and f.get("requires_impl_equals_model"):
+                continue
             c = self.classifiers.get(f.get("classifier"))
             if c and c(rec):
                 return f["id"]
